@@ -512,6 +512,31 @@ impl<'a> NNumReal<'a> {
             NNumReal::Float(f) => BigRational::from_float(*f),
         }
     }
+
+    // exact comparison for the arms where a rational is involved; infinite floats have no exact
+    // rational but are still ordered against everything finite. None only if a NaN is involved.
+    fn cmp_as_rationals(&self, other: &Self) -> Option<Ordering> {
+        if self.is_nan() || other.is_nan() {
+            return None;
+        }
+        match (self.infinity_sign(), other.infinity_sign()) {
+            (0, 0) => Some(self.exact_to_rational()?.cmp(&other.exact_to_rational()?)),
+            (sa, sb) => Some(sa.cmp(&sb)),
+        }
+    }
+
+    fn infinity_sign(&self) -> i8 {
+        match self {
+            NNumReal::Float(f) if f.is_infinite() => {
+                if f.is_sign_positive() {
+                    1
+                } else {
+                    -1
+                }
+            }
+            _ => 0,
+        }
+    }
 }
 
 fn to_nint_if_int(f: f64) -> Option<NInt> {
@@ -548,7 +573,7 @@ impl<'a> PartialOrd for NNumReal<'a> {
             (NNumReal::Int(a), NNumReal::Float(b)) => cmp_nint_f64(a, b),
             (NNumReal::Float(a), NNumReal::Int(b)) => cmp_nint_f64(b, a).map(|ord| ord.reverse()),
             (NNumReal::Float(a), NNumReal::Float(b)) => a.partial_cmp(b),
-            (a, b) => a.exact_to_rational()?.partial_cmp(&b.exact_to_rational()?),
+            (a, b) => a.cmp_as_rationals(b),
         }
     }
 }
@@ -566,10 +591,9 @@ impl<'a> NNumReal<'a> {
             (NNumReal::Float(a), NNumReal::Float(b)) => {
                 a.partial_cmp(b).unwrap_or(b.is_nan().cmp(&a.is_nan()))
             } // note swap
-            (a, b) => match (a.exact_to_rational(), b.exact_to_rational()) {
-                (Some(a), Some(b)) => a.cmp(&b),
-                _ => b.is_nan().cmp(&a.is_nan()),
-            },
+            (a, b) => a
+                .cmp_as_rationals(b)
+                .unwrap_or(b.is_nan().cmp(&a.is_nan())),
         }
     }
 
@@ -583,10 +607,9 @@ impl<'a> NNumReal<'a> {
             (NNumReal::Float(a), NNumReal::Float(b)) => {
                 a.partial_cmp(b).unwrap_or(a.is_nan().cmp(&b.is_nan()))
             }
-            (a, b) => match (a.exact_to_rational(), b.exact_to_rational()) {
-                (Some(a), Some(b)) => a.cmp(&b),
-                _ => a.is_nan().cmp(&b.is_nan()),
-            },
+            (a, b) => a
+                .cmp_as_rationals(b)
+                .unwrap_or(a.is_nan().cmp(&b.is_nan())),
         }
     }
 }
